@@ -69,7 +69,7 @@ func (w *witness) nextAction(q *simPeer) string {
 	}
 	// all symbols of the observed frame are in; an empty message at the head may still belong to it
 	if len(q.queue) > 0 && len(q.queue[0].syms) == 0 {
-		startsNext := q.fi+1 < len(q.obs) && (len(q.obs[q.fi+1].Syms) == 0 || q.queue[0].mt == q.obs[q.fi+1].MT)
+		startsNext := q.fi+1 < len(q.obs) && q.queue[0].mt == q.obs[q.fi+1].MT // a frame has its head's type
 		if !startsNext {
 			pop()
 			w.out = append(w.out, WOp{K: "more", N: q.name})
